@@ -440,7 +440,7 @@ func streamCompact(c *Ctx) {
 		}
 	}
 	c.stats.Exhaustive = append(c.stats.Exhaustive, "first unit of a share at in-share offsets 34..39, 127/128, 255..258, 300, 509..511 x share 0/1/2 x 4 tails")
-	nl := c.n(500, 10000)
+	nl := c.n(500, 5000)
 	for i := 0; i < nl; i++ {
 		k := c.rng.Range(1, 9)
 		txs := make([][]byte, k)
